@@ -1,5 +1,6 @@
 mod bl;
 mod gen;
+mod golden;
 mod imp;
 mod oracle;
 mod refs;
@@ -25,6 +26,7 @@ fn main() {
         Some("oracle") => oracle::serve(),
         Some("gen") => print!("{}", gen::generate(&args[2], tier(3), seed(4)).s),
         Some("search") => search::run(&args[2], tier(3), seed(4)),
+        Some("golden-check") => golden::check(&args[2]),
         _ => {
             eprintln!("usage: blsdiff impl|oracle|gen <prop> <tier> <seed>|search <prop> <tier> <seed>");
             std::process::exit(2);
